@@ -412,6 +412,68 @@ Section NoPanic.
   Qed.
 End NoPanic.
 
+(* ---------- whatever DecryptKey accepts passed the MAC check under a 16-byte MAC key ---------- *)
+Section MacKey.
+  Variable kdf : kdf_alg -> bytes -> bytes -> Z -> pres.
+  Variable aes_ctr : bytes -> bytes -> bytes -> pres.
+  Variable aes_cbc_dec : bytes -> bytes -> bytes -> pres.
+  Variable H : bytes -> bytes.
+  Variable pub_addr : bytes -> bytes.
+
+  Lemma check_mac_ok_inv f machex ivhex cthex kdfname auth d iv ct :
+    check_mac kdf H f machex ivhex cthex kdfname auth = Ok (d, iv, ct) ->
+    exists mk mac, hex_decode machex = Some mac /\ hex_decode cthex = Some ct /\
+      slice 16 32 d = Some mk /\ length mk = 16%nat /\ H (mk ++ ct) = mac /\
+      get_kdf_key kdf f kdfname auth = Ok d.
+  Proof.
+    unfold check_mac.
+    destruct (hex_decode machex) as [mac|]; [|discriminate].
+    destruct (hex_decode ivhex) as [iv'|]; [|discriminate].
+    destruct (hex_decode cthex) as [ct'|]; [|discriminate].
+    destruct (get_kdf_key kdf f kdfname auth) as [d'| |]; try discriminate.
+    destruct (slice 16 32 d') as [mk|] eqn:S; [|discriminate].
+    destruct (bytes_eqb_spec (H (mk ++ ct')) mac) as [E|]; [|discriminate].
+    intros X. injection X as <- <- <-. exists mk, mac. repeat split; try assumption; try reflexivity.
+    apply (slice_length 16 32 d' mk S). lia.
+  Qed.
+
+  (* for every document and passphrase: acceptance implies the stored MAC is H(mk ++ ciphertext) for the
+     16 bytes mk = derived[16:32] of the key derived from THIS passphrase.  A MAC recomputed for an empty,
+     shorter or all-zero key (what can be done without the passphrase) is therefore accepted only through a
+     Keccak collision or if derived[16:32] happens to be that key. *)
+  Theorem accepted_mac_key f auth k a :
+    decrypt_key kdf aes_ctr aes_cbc_dec H pub_addr f auth = Ok (k, a) ->
+    exists machex cthex kdfname mac ct d mk,
+      as_string (kf_mac f) = Some machex /\ as_string (kf_ciphertext f) = Some cthex /\
+      as_string (kf_kdf f) = Some kdfname /\
+      hex_decode machex = Some mac /\ hex_decode cthex = Some ct /\
+      get_kdf_key kdf f kdfname auth = Ok d /\ slice 16 32 d = Some mk /\ length mk = 16%nat /\
+      H (mk ++ ct) = mac.
+  Proof.
+    unfold decrypt_key.
+    destruct (as_string (kf_address f)); [|discriminate].
+    destruct (as_string (kf_id f)); [|discriminate].
+    destruct (as_string (kf_cipher f)) as [cipher|]; [|discriminate].
+    destruct (as_string (kf_ciphertext f)) as [cthex|]; [|discriminate].
+    destruct (as_string (kf_iv f)) as [ivhex|]; [|discriminate].
+    destruct (as_string (kf_kdf f)) as [kdfname|]; [|discriminate].
+    destruct (as_string (kf_mac f)) as [machex|]; [|discriminate].
+    destruct (as_obj_ok (kf_crypto f) && as_obj_ok (kf_cipherparams f) && as_obj_ok (kf_kdfparams f)); [|discriminate].
+    intros D.
+    assert (C : exists d iv ct, check_mac kdf H f machex ivhex cthex kdfname auth = Ok (d, iv, ct)).
+    { destruct (match kf_version_exact f with JStr s => bytes_eqb s ascii_1 | _ => false end).
+      - destruct (as_string (kf_version f)); [|discriminate].
+        destruct (check_mac kdf H f machex ivhex cthex kdfname auth) as [[[d iv] ct]| |]; try discriminate. eauto.
+      - destruct (as_int (kf_version f)); [|discriminate].
+        destruct (negb (Z.eqb z 3)); [discriminate|].
+        destruct (negb (bytes_eqb cipher ascii_aes_128_ctr)); [discriminate|].
+        destruct (check_mac kdf H f machex ivhex cthex kdfname auth) as [[[d iv] ct]| |]; try discriminate. eauto. }
+    destruct C as (d & iv & ct & C).
+    destruct (check_mac_ok_inv _ _ _ _ _ _ _ _ _ C) as (mk & mac & E1 & E2 & E3 & E4 & E5 & E6).
+    exists machex, cthex, kdfname, mac, ct, d, mk. repeat split; assumption || reflexivity.
+  Qed.
+End MacKey.
+
 (* ---------- the KeyStore lock-state machine: statements over every history ---------- *)
 (* the (account, passphrase) an operation authenticates with *)
 Definition op_auth (op : ks_op) : option (nat * bytes) :=
